@@ -3,7 +3,7 @@
 From Verif Require Import Base.Tactics Base.ZList Base.Val.
 From Verif Require Import Base.Str.
 From Verif Require Import Model.BufReaderModel Model.RangeModel Model.IsoTimeModel Model.TimingModel Model.SegModel.
-From Verif Require Import Base.Bits Model.CrcModel Model.EventsModel Model.Scte35Model Model.MpsModel Model.AuthModel Model.OptionsModel Model.BoxModel Model.FragModel.
+From Verif Require Import Base.Bits Model.CrcModel Model.EventsModel Model.Scte35Model Model.MpsModel Model.AuthModel Model.OptionsModel Model.BoxModel Model.FragModel Model.DrmModel.
 
 (* ---- C20 ---- request: (file off bs maxb (size?) mode ops) *)
 Definition c20_op (v : val) : op :=
@@ -314,8 +314,32 @@ Definition c03_run (v : val) : val :=
       VL (map (fun e => VL [VI (c03_tag_code (fst e)); VI (snd e)]) (rewrite_traf o s));
       VI (new_time o s); VI (data_offset o s); VI (senc_entry_rel o s); VI (payload_pos o s)].
 
+(* ---- C11 ---- request: (mode ...) *)
+Definition c11_run (v : val) : val :=
+  let mode := vint (vnth 0 v) in
+  if mode =? 0 then of_ints (le_guid (vints (vnth 1 v)))
+  else if mode =? 1 then of_ints (generate_pro (vints (vnth 1 v)))
+  else if mode =? 2 then
+    match parse_pro (vints (vnth 1 v)) with
+    | Some l => VL [VL (map (fun e => match e with (t, n, h) => VL [VI t; VI n; of_ints h] end) l)]
+    | None => VL []
+    end
+  else if mode =? 3 then of_ints (b64url_encode (vints (vnth 1 v)))
+  else if mode =? 4 then
+    match b64url_decode (vints (vnth 1 v)) with Some b => VL [of_ints b] | None => VL [] end
+  else if mode =? 5 then
+    (* content key with the three digests supplied by the caller: (digestA digestB digestC) *)
+    let half x := xor_bytes (ztake 16 x) (zdrop 16 x) in
+    of_ints (xor_bytes (xor_bytes (half (vints (vnth 1 v))) (half (vints (vnth 2 v)))) (half (vints (vnth 3 v))))
+  else if mode =? 6 then
+    VL (map (fun e => VL [of_ints (fst e); of_ints (snd e)])
+            (clearkey_response (map (fun e => (vints (vnth 0 e), vints (vnth 1 e))) (vlist (vnth 1 v)))
+                               (map vints (vlist (vnth 2 v)))))
+  else verr 994.
+
 Definition dispatch (comp : Z) (v : val) : val :=
   if comp =? 20 then c20_run v
+  else if comp =? 11 then c11_run v
   else if comp =? 3 then c03_run v
   else if comp =? 4 then c04_run v
   else if comp =? 7 then c07_run v
